@@ -309,8 +309,11 @@ def execute(case):
     participated = set()
 
     def reaches_graph(name, p):
-        if opts is not None and opts['disable_sampling']:
-            return False       # nothing is sampled; a gradient that still arrives comes through a stale autograd graph
+        # demanded for PIT masks only: whether an MPS / SuperNet coefficient is in the graph depends on the sampling
+        # mode in too many ways (disabled sampling with a stale autograd graph, hard one_hot(argmax) selection, eval
+        # mode of Gumbel blocks, quantizers that are never called) - three false alarms came from there
+        if method != 'pit':
+            return False
         return name in participated
 
     def check_grads(culprit, tag):
